@@ -343,7 +343,11 @@ def write_evidence(prop, tier, seed, results, discharged, not_discharged, violat
         "violations": len(violations),
     }
     os.makedirs(os.path.join(VERIF, "evidence"), exist_ok=True)
-    with open(os.path.join(VERIF, "evidence", prop + ".json"), "w") as f:
+    target = os.path.join(VERIF, "evidence", prop + ".json")
+    if os.environ.get("GV_EVIDENCE_SCRATCH"):      # partial (--only) runs never overwrite the property's evidence
+        os.makedirs(os.path.join(VERIF, ".logs"), exist_ok=True)
+        target = os.path.join(VERIF, ".logs", "evidence_partial_%s.json" % prop)
+    with open(target, "w") as f:
         json.dump(ev, f, indent=1)
 
 
@@ -424,6 +428,8 @@ def main():
         ap.error("property id required")
     if a.replay:
         return do_replay(a.prop, a.replay)
+    if a.only:
+        os.environ["GV_EVIDENCE_SCRATCH"] = "1"
     return check_property(a.prop, a.tier, seed, only=a.only.split(",") if a.only else None)
 
 
